@@ -629,20 +629,22 @@ package pokertable
 
 //@ spec leavingID(ids, id) = exists(i, 0, 10, i < len(ids) && ids[i] == id)
 
+//@ spec inHandStatus(st) = st == TableStateStatus_TableGameOpened || st == TableStateStatus_TableGamePlaying || st == TableStateStatus_TableGameSettled
+
 //@ func (*tableEngine).calcLeavePlayers
 //@   property C01 C03
 //@   returns newPS, newSeatMap, newGPI
-//@   requires 2 <= tableMaxSeatCount && tableMaxSeatCount <= 10
+//@   config M 2..10 quick 2..5 : tableMaxSeatCount = M
 //@   requires te != nil && te.table != nil && St(te) != nil && 0 <= len(leavePlayerIDs) && len(leavePlayerIDs) <= 10 && 0 <= len(currentPlayers) && len(currentPlayers) <= tableMaxSeatCount
 //@   requires forall(i, 0, 10, i < len(currentPlayers) ==> currentPlayers[i] != nil && 0 <= currentPlayers[i].Seat && currentPlayers[i].Seat < tableMaxSeatCount)
 //@   requires forall(i, 0, 10, forall(j, 0, 10, i < j && j < len(currentPlayers) ==> currentPlayers[i] != currentPlayers[j] && currentPlayers[i].PlayerID != currentPlayers[j].PlayerID && currentPlayers[i].Seat != currentPlayers[j].Seat))
 //@   requires HandShape(te) && sameslice(currentPlayers, PS(te))
 //@   modifies nothing
-//@   loop 0 unroll 10
-//@   loop 1 unroll 10
-//@   loop 2 unroll 10
-//@   loop 3 unroll 10
-//@   loop 4 unroll 10
+//@   loop 0 unroll M
+//@   loop 1 unroll M
+//@   loop 2 unroll M
+//@   loop 3 unroll M
+//@   loop 4 unroll M
 //@   ensures stayers-kept: 0 <= len(newPS) && len(newPS) <= len(currentPlayers) && fresh(newPS)
 //@             && forall(i, 0, 10, i < len(currentPlayers) && !leavingID(leavePlayerIDs, currentPlayers[i].PlayerID) ==> exists(j, 0, 10, j < len(newPS) && newPS[j] == currentPlayers[i]))
 //@   ensures leavers-dropped: forall(j, 0, 10, j < len(newPS) ==> exists(i, 0, 10, i < len(currentPlayers) && newPS[j] == currentPlayers[i] && !leavingID(leavePlayerIDs, currentPlayers[i].PlayerID)))
@@ -651,6 +653,8 @@ package pokertable
 //@             && forall(i, 0, 10, i < len(currentPlayers) && !leavingID(leavePlayerIDs, currentPlayers[i].PlayerID)
 //@                   ==> newPS[cnt(k, 0, i, !leavingID(leavePlayerIDs, currentPlayers[k].PlayerID))] == currentPlayers[i])
 //@   ensures hand-entries-kept-between-hands: !(status == TableStateStatus_TableGameOpened || status == TableStateStatus_TableGamePlaying || status == TableStateStatus_TableGameSettled) ==> sameslice(newGPI, GPI(te))
+//@   ensures hand-entries-in-range: inHandStatus(status) ==> 0 <= len(newGPI) && len(newGPI) <= len(GPI(te)) && forall(k, 0, 10, k < len(newGPI) ==> 0 <= newGPI[k] && newGPI[k] < len(newPS))
+//@   ensures hand-entries-follow-players: inHandStatus(status) ==> forall(k, 0, 10, k < len(newGPI) ==> exists(q, 0, 10, q < len(GPI(te)) && newPS[newGPI[k]] == PS(te)[GPI(te)[q]]))
 //@   ensures seat-map-rebuilt: len(newSeatMap) == tableMaxSeatCount && fresh(newSeatMap)
 //@             && forall(j, 0, 10, j < len(newPS) ==> newSeatMap[newPS[j].Seat] == j)
 //@             && forall(s, 0, 10, s < tableMaxSeatCount ==> newSeatMap[s] == -1 || (0 <= newSeatMap[s] && newSeatMap[s] < len(newPS) && newPS[newSeatMap[s]].Seat == s))
@@ -1109,7 +1113,7 @@ package pokertable
 //@ func (*tableEngine).batchAddPlayers
 //@   property C01 C02 C03 C05
 //@   returns err
-//@   config M 2..10 quick 2..3 : te.table.Meta.TableMaxSeatCount = M, te.sm.MaxSeat = M, len(te.sm.SeatData) = M, len(te.table.State.SeatMap) = M
+//@   config M 2..5 quick 2..3 : te.table.Meta.TableMaxSeatCount = M, te.sm.MaxSeat = M, len(te.sm.SeatData) = M, len(te.table.State.SeatMap) = M
 //@   requires TableWF(te) && Coupled(te) && batchOK(te, players) && te.rg != nil
 //@   modifies St(te).PlayerStates, St(te).SeatMap, te.sm.SeatData[all], log
 //@   loop 0 unroll 10
@@ -1166,7 +1170,7 @@ package pokertable
 //@ func (*tableEngine).UpdateTablePlayers
 //@   property C03 C16
 //@   returns seats, err
-//@   config M 2..10 quick 2..3 : te.table.Meta.TableMaxSeatCount = M, te.sm.MaxSeat = M, len(te.sm.SeatData) = M, len(te.table.State.SeatMap) = M
+//@   config M 2..5 quick 2..3 : te.table.Meta.TableMaxSeatCount = M, te.sm.MaxSeat = M, len(te.sm.SeatData) = M, len(te.table.State.SeatMap) = M
 //@   requires TableWF(te) && Coupled(te) && HandShape(te) && te.rg != nil && !held(te.lock)
 //@   requires 0 <= len(leavePlayerIDs) && len(leavePlayerIDs) <= MaxSeats(te) && batchOK(te, joinPlayers)
 //@   guarded te.lock : "pokertable.tableEngine.table", "pokertable.tableEngine.sm", "pokertable.Table.", "pokertable.TableState.", "pokertable.TablePlayerState."
